@@ -17,7 +17,7 @@ def gen_ops(rng, n_ops):
 	fresh = iter(rng.sample(range(1, 60), 40))
 	for _ in range(n_ops):
 		kind = rng.choice(['add_node', 'add_node', 'add_edge', 'add_edge', 'add_edge', 'add_successor', 'add_predecessor',
-						   'remove_node', 'reindex', 'add_edge_bad'])
+						   'remove_node', 'reindex', 'add_edge_bad', 'unlink', 'add_edges_from_list'])
 		if kind == 'add_node' or len(labels) < 2:
 			l = next(fresh) if rng.random() < .85 or not labels else rng.choice(labels)
 			ops.append({'op': 'add_node', 'a': l})
@@ -35,6 +35,14 @@ def gen_ops(rng, n_ops):
 			else:
 				b = rng.choice([x for x in labels if x != a])
 			ops.append({'op': kind, 'a': a, 'b': b})
+		elif kind == 'unlink':
+			# the two node-level calls that take an edge out: a.remove_successor(b); b.remove_predecessor(a) (no-ops for non-neighbours)
+			a, b = rng.sample(labels, 2)
+			ops.append({'op': 'unlink', 'a': a, 'b': b})
+		elif kind == 'add_edges_from_list':
+			for _ in range(rng.randint(1, 3)):
+				a, b = rng.sample(labels, 2)
+				ops.append({'op': 'add_edge', 'a': a, 'b': b, 'via_list': True})
 		elif kind == 'remove_node':
 			l = rng.choice(labels) if rng.random() < .9 else 98
 			ops.append({'op': 'remove_node', 'a': l})
@@ -119,7 +127,13 @@ def ops_case(rep, drv, ops):
 				if op['op'] == 'add_node':
 					net.add_node(SupplyChainNode(op['a']))
 				elif op['op'] == 'add_edge':
-					net.add_edge(op['a'], op['b'])
+					if op.get('via_list'):
+						net.add_edges_from_list([(op['a'], op['b'])])
+					else:
+						net.add_edge(op['a'], op['b'])
+				elif op['op'] == 'unlink':
+					byl[op['a']].remove_successor(op['b'] if k % 2 else byl[op['b']])
+					byl[op['b']].remove_predecessor(byl[op['a']] if k % 2 else op['a'])
 				elif op['op'] == 'add_successor':
 					net.add_successor(byl[op['a']], byl.get(op['b']) or SupplyChainNode(op['b']))
 				elif op['op'] == 'add_predecessor':
